@@ -70,3 +70,23 @@ M("skip-expands-definitions", "expander.go",
 M("skip-keeps-absolute", "expander.go",
   "		target.Ref = denormalizeRef(&rebasedRef, resolver.context.basePath, resolver.context.rootID)\n\n		return &target, nil",
   "		target.Ref = rebasedRef\n\n		return &target, nil", ["C09"])
+
+# ---- C04 termination / crashes ----------------------------------------------
+M("term-no-parentrefs-append", "expander.go",
+  "	parentRefs = append(parentRefs, normalizedRef.String())\n	transitiveResolver := resolver.transitiveResolver(basePath, target.Ref)",
+  "	transitiveResolver := resolver.transitiveResolver(basePath, target.Ref)", ["C04"])
+M("term-circular-false-with-siblings", "expander.go",
+  "	if resolver.isCircular(normalizedRef, basePath, parentRefs...) {\n		// this means there is a cycle in the recursion tree: return the Ref",
+  "	if target.Description == \"\" && resolver.isCircular(normalizedRef, basePath, parentRefs...) {\n		// this means there is a cycle in the recursion tree: return the Ref", ["C04"])
+M("term-deref-no-circular-check", "schema_loader.go",
+  "	if r.isCircular(normalizedRef, basePath, parentRefs...) {\n		return nil\n	}\n\n	previous := *ref",
+  "	previous := *ref", ["C04"])
+M("term-p1-revert", "schema_loader.go", "		if isAbsent(res) {", "		if false && isAbsent(res) {", ["C04", "C08"])
+M("term-continue-nil-deref", "expander.go",
+  "	if s != nil { // guard for when continuing on error\n		*sch = *s\n	}",
+  "	*sch = *s", ["C04"])
+M("term-memo-off-exponential", "schema_loader.go",
+  "	if _, ok := r.context.circulars[normalizedRef]; ok {", "	if _, ok := r.context.circulars[normalizedRef]; ok && false {", ["C04"])
+M("term-items-ignores-cycle", "expander.go",
+  "		t, err := expandSchema(*target.Items.Schema, parentRefs, resolver, basePath)",
+  "		t, err := expandSchema(*target.Items.Schema, parentRefs[:0], resolver, basePath)", ["C04"])
